@@ -767,6 +767,19 @@ func (s *SourceControl) StoreRawDataBlock(N int, reply *string) error {
 	return err
 }
 
+// headerTrackingCodec is a rpc.ServerCodec that remembers whether the latest request header could be read.
+type headerTrackingCodec struct {
+	rpc.ServerCodec
+	headerRead bool
+}
+
+// ReadRequestHeader reads the next request's header and notes whether that worked.
+func (c *headerTrackingCodec) ReadRequestHeader(r *rpc.Request) error {
+	err := c.ServerCodec.ReadRequestHeader(r)
+	c.headerRead = err == nil
+	return err
+}
+
 // RunRPCServer sets up and runs a permanent JSON-RPC server.
 // If `block`, it will block until Ctrl-C and gracefully shut down.
 // (The intention is that block=true in normal operation, but false for certain tests.)
@@ -920,10 +933,14 @@ func RunRPCServer(portrpc int, block bool) {
 					// are handled SYNCHRONOUSLY, so sourceControl doesn't need a lock
 					// requests from multiple connections are still asynchronous, but we could add slice of
 					// connections and loop over it instead of launch a goroutine per connection
-					codec := jsonrpc.NewServerCodec(conn)
+					codec := &headerTrackingCodec{ServerCodec: jsonrpc.NewServerCodec(conn)}
+					defer codec.Close()
 					for {
 						err := server.ServeRequest(codec)
-						if err != nil {
+						// A request that could be read but not served (unknown method, arguments of the
+						// wrong type) has been answered with the error, and the connection is still good.
+						// Stop serving, and close the connection, only when the request itself was unreadable.
+						if err != nil && !codec.headerRead {
 							//spew.Dump(codec)
 							break
 						}
